@@ -14,7 +14,11 @@ def main():
     ok = True
     specs = []
     hooks = []
+    import json
+    claimed = set(c["property_id"].lower() for c in json.load(open(os.path.join(C.VERIF, "MANIFEST.json")))["checks"])
     for f in sorted(glob.glob(os.path.join(C.VERIF, "props", "c[0-9]*.py"))):
+        if os.path.basename(f)[:-3] not in claimed:
+            continue  # property not (yet) claimed in MANIFEST.json: nothing to prepare
         try:
             mod = importlib.import_module("props." + os.path.basename(f)[:-3])
         except Exception as e:
